@@ -205,3 +205,4 @@ Proof. vm_compute. reflexivity. Qed.
 (* ---- the pinned text of urljoin *)
 Theorem urljoin_model_is_current : eqs urljoin_source_sha urljoin_modelled_sha = true.
 Proof. exact urljoin_pinned. Qed.
+Print Assumptions urljoin_model_is_current.
